@@ -159,11 +159,22 @@ def exists_in(L, body):
     return exists(0, length(L), lambda i: body(at(L, i)))
 
 
+def mem_term(L, x):
+    """canonical `x in L` for a symbolic list (one shape everywhere, so that facts and goals match syntactically)"""
+    i = z3.Int("mem!i")
+    return z3.Exists([i], z3.And(0 <= i, i < L.n, L.a[i] == _t(x)))
+
+
+def asc_term(L, strict=True):
+    i, j = z3.Int("asc!i"), z3.Int("asc!j")
+    return z3.ForAll([i, j], z3.Implies(z3.And(0 <= i, i < j, j < L.n), L.a[i] < L.a[j] if strict else L.a[i] <= L.a[j]))
+
+
 def member(x, S_):
     if isinstance(S_, SSet):
         return S_.chi[_t(x)]
     if isinstance(S_, SList):
-        return exists(0, S_.n, lambda i: S_.a[i] == _t(x))
+        return mem_term(S_, x)
     if _sym(x):
         return z3.Or(*[_t(x) == _t(y) for y in S_]) if len(S_) else False
     return x in S_
